@@ -105,6 +105,7 @@ class C02(Prop):
             'line-event budget after a watchdog flag. Non-trivial: tree has an error node/leaf or generated depth >= 20.')
     assumptions = ['nesting depth of every generated text is <= 100 by construction (builders count each opener by the number '
                    'of grammar constructs it opens)']
+    fuzz = True       # thorough/quick runs add an atheris sub-tier with this check as the in-target oracle
     budgets = {'quick': 24000, 'thorough': 640000}
     hang_timeout = 40          # seconds without progress of a worker before the parent inspects its current case
 
